@@ -17,10 +17,7 @@ let kv tok key =
   else failwith ("expected " ^ key ^ "= got " ^ tok)
 
 let flags_of_variant v =
-  if v = "repaired" then repaired else if v = "head" then head else if v = "defective" then defective
-  else if String.length v = 6 && v.[0] = 'v' then
-    { f_reply = v.[1] = '1'; f_coaauth = v.[2] = '1'; f_dmwin = v.[3] = '1'; f_white = v.[4] = '1'; f_tsreq = v.[5] = '1' }
-  else failwith "variant"
+  if v = "repaired" then repaired else if v = "head" then head else failwith "variant"
 
 let rec take k l = if k = 0 then ([], l) else match l with x :: r -> let (a, b) = take (k-1) r in (x :: a, b) | [] -> failwith "short"
 let rec drop k l = if k = 0 then l else match l with _ :: r -> drop (k-1) r | [] -> []
@@ -199,6 +196,59 @@ let run_auth fl toks impl =
      | _ -> "NOIMPL")
   | _ -> "badcase"
 
+(* ------------------------------------------------------------ fail-over cases *)
+(* fail kind=.. pw=.. n { secret=<hex> k recipe*k }*n ; implementation: s<i>:req=<hex|-> dgs=<..|-> ; ... ; got=..
+   The decision is [authenticate_failover_radius] / [accounting_failover] of the Coq model over the servers that the
+   model says are tried (server i+1 only if server i handed nothing over); for each of them the model prints the
+   request it expects on that server's socket ([expected_wire] under THAT server's secret). *)
+let run_fail fl toks impl =
+  match toks with
+  | kd :: _ :: n :: rest ->
+    let kind = kv kd "kind" in
+    let n = int_of_string n in
+    let rec secrets k rest acc = if k = 0 then List.rev acc else
+        match rest with
+        | sec :: cnt :: more -> secrets (k-1) (drop (int_of_string cnt) more) (bytes_of_hex (kv sec "secret") :: acc)
+        | _ -> failwith "fail case" in
+    let secs = secrets n rest [] in
+    let segs = split_on_str " ; " impl in
+    if List.length segs <> n + 1 then "NOIMPL" else
+      let obs = List.mapi (fun i seg ->
+          match tokens seg with
+          | [rq; dg] ->
+            let pre = Printf.sprintf "s%d:req=" i in
+            let lp = String.length pre in
+            let r = String.sub rq lp (String.length rq - lp) in
+            let d = kv dg "dgs" in
+            (r, d)
+          | _ -> failwith "seg") (fst (take n segs)) in
+      (* walk the servers as the model prescribes *)
+      let rec walk i secs obs tried acc =
+        match secs, obs with
+        | sec :: sr, (r, d) :: orr ->
+          if tried = `Stop then walk (i+1) sr orr `Stop (Printf.sprintf "s%d:req=- dgs=-" i :: fst acc, snd acc)
+          else if r = "-" then (Printf.sprintf "s%d:req=MISSING dgs=-" i :: fst acc, snd acc)
+          else
+            let req = bytes_of_hex r in
+            let dl = if d = "-" then [] else List.map bytes_of_hex (String.split_on_char ',' d) in
+            let line = Printf.sprintf "s%d:req=%s dgs=%s" i (hex_of_bytes (expected_wire md5f sec req)) d in
+            let st = ((sec, req), dl) in
+            let acc' = (line :: fst acc, st :: snd acc) in
+            (match try_server md5f fl st with
+             | Some _ -> walk (i+1) sr orr `Stop acc'
+             | None -> walk (i+1) sr orr `Go acc')
+        | _, _ -> acc in
+      let (lines, servers) = walk 0 secs obs `Go ([], []) in
+      let lines = List.rev lines and servers = List.rev servers in
+      let lines = if List.length lines < n then lines @ List.init (n - List.length lines) (fun j -> Printf.sprintf "s%d:req=- dgs=-" (List.length lines + j)) else lines in
+      let g = if kind = "acct" then (if accounting_failover md5f fl servers then "ok" else "error")
+        else (match authenticate_failover_radius md5f fl servers with
+            | AAllowed attrs -> "allowed:" ^ show_delta attrs
+            | ADenied -> "denied"
+            | AError -> "error") in
+      String.concat " ; " lines ^ " ; got=" ^ g
+  | _ -> "badcase"
+
 (* ------------------------------------------------------------ literal tables of the model *)
 let kind_of (dec : n list -> n list option) : string =
   let probe k = bytes_of_string (String.sub "abcdefghijklmnopqrstuvwxyz" 0 k) in
@@ -233,6 +283,7 @@ let () =
            | "coa" :: t -> run_coa fl t il
            | "auth" :: t -> run_auth fl t il
            | "lits" :: _ -> run_lits ()
+           | "fail" :: t -> run_fail fl t il
            | _ -> "badline")
         with e -> "MODELERR " ^ Printexc.to_string e in
       print_endline r) lines
